@@ -30,4 +30,11 @@ pub trait Control: Send {
     fn pacing_rate(&self) -> Option<usize>;
 
     fn remove_from_bytes_in_flight(&mut self, packets: &mut dyn Iterator<Item = &SentPacket>);
+
+    /// Read-only view for the verification harness:
+    /// (congestion window, slow start threshold, bytes in flight, recovery start time).
+    #[cfg(genmeta_gm_quic_verif)]
+    fn verif_state(&self) -> Option<(usize, usize, usize, Option<Instant>)> {
+        None
+    }
 }
